@@ -307,6 +307,7 @@ def main(check, argv=None):
              'vcount': 0}
     next_index = args.start
     max_cases = args.cases
+    known = load_known()
     ctx = multiprocessing.get_context('fork')
     workers = max(1, args.workers)
     pending = set()
@@ -350,8 +351,9 @@ def main(check, argv=None):
                         have.add(v['sig'])
                 total['errors'].extend(agg['errors'])
                 # stop early when violations were found (quick) - they need time to minimise
+                unlisted = [x for x in total['violations'] if known_match(known, check.PROP, x['sig']) is None]
                 if REAL_MONO() < deadline and not total['errors'] and \
-                        not (total['violations'] and tier == 'quick' and total['runs'] > 200):
+                        not (unlisted and tier == 'quick' and total['runs'] > 200):
                     submit()
     wall_search = REAL_MONO() - t0
 
@@ -362,11 +364,14 @@ def main(check, argv=None):
         print('scenario: %s' % json.dumps(e['scenario'])[:2000])
         exit_code = 2
 
-    known = load_known()
     reported = []
     known_lines = []
     for v in total['violations']:
         k = known_match(known, check.PROP, v['sig'])
+        if k is not None:
+            # a listed finding: reported as such, never minimised, never an alarm
+            known_lines.append('KNOWN-FINDING: property=%s %s' % (check.PROP, k['what']))
+            continue
         sc, vals, ok = minimise(check, v['scenario'], v['tape'], v['sig'],
                                 budget=float(os.environ.get('VERIF_SHRINK_S', '45')))
         r = _reproduces(check, sc, vals, v['sig'])
